@@ -21,6 +21,7 @@ theorem impl_next_of_spec (s w rest) (h : Spec.extractFirst argFlags s = .word w
     Impl.next s = .word w rest := by
   unfold Spec.extractFirst at h
   unfold Impl.next
+  rw [implDropSeps_eq]
   cases hd : dropSeps s with
   | nil => simp [hd] at h
   | cons c r => simp only [hd] at h ⊢; exact impl_word_of_spec _ _ _ _ _ _ h
@@ -28,6 +29,7 @@ theorem impl_next_of_spec (s w rest) (h : Spec.extractFirst argFlags s = .word w
 theorem impl_next_noWord (s) (h : Spec.extractFirst argFlags s = .noWord) : Impl.next s = .noWord := by
   unfold Spec.extractFirst at h
   unfold Impl.next
+  rw [implDropSeps_eq]
   cases hd : dropSeps s with
   | nil => rfl
   | cons c r =>
